@@ -1112,28 +1112,29 @@ Definition cover (w : wpc) (n : N) : bool :=
   end.
 
 Definition Pr (s : state) (r : reader) : Prop :=
-  (r_pc r = RParked false ->
-     (st_hsh s < r_n r \/ cover (st_w s) (r_n r) = true) /\
-     (mem (r_n r) (st_notified s) = true -> r_late r = true)) /\
+  (parked r = true -> st_hsh s < r_n r \/ cover (st_w s) (r_n r) = true) /\
+  (blocked r = true -> mem (r_n r) (st_notified s) = false) /\
+  (forall sig, r_pc r = RWait PDereg sig -> stored s (r_n r)) /\
   (r_pc r = RLookup2 -> stored s (r_n r) \/ r_n r <= st_hsh s) /\
   (r_pc r = RDone RNotFound -> r_n r <= st_hsh s) /\
   (r_pc r = RDone RCtx -> r_cancel r = true) /\
   (r_pc r = RDone RZero -> r_n r = 0).
 
-Definition InvP (s : state) : Prop := Forall (Pr s) (st_readers s).
+Definition InvP (s : state) : Prop :=
+  Forall (Pr s) (st_readers s) /\ (forall n, In n (st_notified s) -> map_get (st_map s) n <> None).
 
 Lemma InvP_init hd tl m ns q : InvP (init hd tl m ns q).
 Proof.
-  unfold InvP. cbn. apply Forall_forall. intros r Hr. apply in_map_iff in Hr as (n & <- & _).
-  unfold Pr. cbn. repeat split; discriminate.
+  split; [|intros n []]. cbn. apply Forall_forall. intros r Hr. apply in_map_iff in Hr as (n & <- & _).
+  unfold Pr. cbn. repeat split; try discriminate. intros sig H; discriminate.
 Qed.
 
-Lemma parked_has_sub s i r : InvK s -> nth_error (st_readers s) i = Some r -> r_pc r = RParked false ->
+Lemma parked_has_sub s i r : InvK s -> nth_error (st_readers s) i = Some r -> parked r = true ->
   has_sub (st_subs s) (r_n r) = true.
 Proof.
   intros [K1 _] E Hpc. specialize (K1 (r_n r)). unfold has_sub.
   destruct (sub_get (st_subs s) (r_n r)); [reflexivity|]. exfalso.
-  assert (A : at_n (r_n r) r = true) by (unfold at_n, parked; rewrite Hpc, N.eqb_refl; reflexivity).
+  assert (A : at_n (r_n r) r = true) by (unfold at_n; rewrite Hpc, N.eqb_refl; reflexivity).
   pose proof (cnt_pos _ _ i r E A). lia.
 Qed.
 
@@ -1153,20 +1154,30 @@ Proof.
   destruct Hs as (a & b & c & d & e & f). unfold Pr, stored. rewrite Hl, d, e, f. tauto.
 Qed.
 
-Lemma Pr_wstep s r : InvW s -> (r_pc r = RParked false -> has_sub (st_subs s) (r_n r) = true) ->
+Lemma blocked_parked r : blocked r = true -> parked r = true.
+Proof. unfold blocked, parked. destruct (r_pc r) as [| | |[| |] [|]| |]; auto. Qed.
+
+Lemma Pr_wstep s r : InvW s -> (parked r = true -> has_sub (st_subs s) (r_n r) = true) ->
   Pr s r -> Pr (wstep s) (signal (fun n => wp (st_w s) n && has_sub (st_subs s) n) r).
 Proof.
-  intros IW Hsub (P1 & P2 & P3 & P4 & P5).
+  intros IW Hsub (P1 & P1' & PD & P2 & P3 & P4 & P5).
   pose proof (hsh_mono s Wr IW) as Hh. cbn in Hh.
   assert (Hst : stored s (r_n r) -> stored (wstep s) (r_n r)) by (apply (stored_mono s Wr); auto).
   rewrite signal_spec.
   destruct (parked r && (wp (st_w s) (r_n r) && has_sub (st_subs s) (r_n r))) eqn:Ehit.
-  - unfold Pr, sig_of. cbn. repeat split; discriminate.
-  - unfold Pr. split; [|split; [|split; [|split]]]; auto.
-    + intros Hpc. specialize (P1 Hpc). specialize (Hsub Hpc). destruct P1 as [P1 P1'].
-      unfold parked in Ehit. rewrite Hpc, Hsub, andb_true_r in Ehit. cbn in Ehit.
+  - apply andb_prop in Ehit as [Ep _]. unfold Pr. rewrite n_sig_of.
+    assert (Hb : blocked (sig_of r) = false).
+    { unfold blocked, sig_of. destruct (r_pc r) as [| | |[| |] [|]| |]; reflexivity. }
+    rewrite parked_sig_of, Hb.
+    split; [discriminate|]. split; [discriminate|].
+    unfold sig_of. unfold parked in Ep. destruct (r_pc r) as [| | |ph [|]| |] eqn:Epc; try discriminate. cbn.
+    split; [intros sig [= -> _]; apply Hst, (PD false); reflexivity|].
+    repeat split; discriminate.
+  - unfold Pr. split; [|split; [|split; [|split; [|split; [|split]]]]]; auto.
+    + intros Hpc. specialize (P1 Hpc). specialize (Hsub Hpc).
+      rewrite Hpc, Hsub, andb_true_r in Ehit. cbn in Ehit.
       pose proof IW as [W1 W2 _ _ _].
-      wcases s; rewrite ?Ew; cbn in *; try (split; [|exact P1']);
+      wcases s; rewrite ?Ew; cbn in *;
         try (destruct P1 as [P1|P1]; [left; exact P1|first [right; exact P1 | discriminate P1]]).
       * (* WInitStore -> WInitNotify *)
         destruct W2 as (Hz & (x & l & -> & <- & Eh) & _).
@@ -1176,66 +1187,104 @@ Proof.
       * (* WInitNotify -> WTail *)
         destruct P1 as [H|H]; [left; exact H|right]. rewrite Ehit in H. exact H.
       * (* WNotify -> WAdvance *)
-        split.
-        -- left. destruct P1 as [H|H]; [exact H|congruence].
-        -- unfold mem in *. rewrite existsb_app, Ehit. cbn. exact P1'.
+        left. destruct P1 as [H|H]; [exact H|congruence].
       * (* WSetHeight *)
         destruct P1 as [H|H]; [|discriminate].
         destruct (N.lt_ge_cases h (r_n r)); [left; auto|right].
         unfold in_range. apply andb_true_intro. split; apply N.leb_le; lia.
       * (* WNotifyRange *) left. destruct P1 as [H|H]; [exact H|congruence].
+    + intros Hb. specialize (P1' Hb). pose proof (blocked_parked r Hb) as Hpc. specialize (Hsub Hpc).
+      rewrite Hpc, Hsub, andb_true_r in Ehit. cbn in Ehit.
+      wcases s; rewrite ?Ew; cbn in *; auto.
+      unfold mem in *. rewrite existsb_app, Ehit, P1'. reflexivity.
+    + intros sig Hpc. apply Hst, (PD sig Hpc).
     + intros Hpc. destruct (P2 Hpc); [left; auto|right; lia].
     + intros Hpc. specialize (P3 Hpc). lia.
 Qed.
 
 Lemma Pr_rnext b s r :
-  (r_pc r = RParked true -> stored s (r_n r) \/ r_n r <= st_hsh s) ->
+  (sigd r = true -> stored s (r_n r) \/ r_n r <= st_hsh s) ->
+  (mem (r_n r) (st_notified s) = true -> stored s (r_n r)) ->
   Pr s r -> Pr s (rnext b s r).
 Proof.
-  intros Hsig (P1 & P2 & P3 & P4 & P5). unfold rnext.
-  destruct (r_pc r) as [| | |sig| |x] eqn:Epc.
-  - destruct (N.eqb_spec (r_n r) 0); [|destruct (lookup s (r_n r))]; unfold Pr; cbn; repeat split; try discriminate; auto.
-  - destruct (N.leb_spec (r_n r) (st_hsh s)); unfold Pr; cbn; repeat split; try discriminate; auto.
-  - destruct (N.leb_spec (r_n r) (st_hsh s)); unfold Pr; cbn; repeat split; try discriminate; auto.
-  - assert (C : Pr s (with_pc r (RDone RCtx)) \/ r_cancel r = false).
-    { destruct (r_cancel r) eqn:Ec; [left|right; reflexivity]. unfold Pr; cbn. repeat split; try discriminate; auto. }
-    assert (Same : Pr s r) by (unfold Pr; rewrite Epc; exact (conj P1 (conj P2 (conj P3 (conj P4 P5))))).
-    destruct b.
-    + destruct C as [C|C]; [destruct (r_cancel r); auto | rewrite C; exact Same].
-    + destruct sig.
-      * unfold Pr; cbn. repeat split; try discriminate; auto.
-      * destruct C as [C|C]; [destruct (r_cancel r); auto | rewrite C; exact Same].
-  - unfold Pr, lookup_res; cbn. specialize (P2 eq_refl).
-    destruct (lookup s (r_n r)) eqn:El; repeat split; try discriminate; auto.
+  intros Hsig Hnot (P1 & P1' & PD & P2 & P3 & P4 & P5). unfold rnext.
+  destruct (r_pc r) as [| | |ph sig| |x] eqn:Epc.
+  - destruct (N.eqb_spec (r_n r) 0); [|destruct (lookup s (r_n r))]; unfold Pr, parked, blocked; cbn;
+      repeat split; try discriminate; auto; intros sg H; discriminate.
+  - destruct (N.leb_spec (r_n r) (st_hsh s)); unfold Pr, parked, blocked; cbn; repeat split; try discriminate; auto;
+      intros sg H; discriminate.
+  - destruct (N.leb_spec (r_n r) (st_hsh s)); unfold Pr, parked, blocked; cbn; repeat split; try discriminate; auto;
+      intros sg H; discriminate.
+  - assert (Hpk : parked r = true -> st_hsh s < r_n r \/ cover (st_w s) (r_n r) = true) by exact P1.
+    unfold parked in Hpk, P1. unfold blocked in P1'. unfold sigd in Hsig. rewrite Epc in *.
+    assert (C : r_cancel r = true -> Pr s (with_pc r (RDone RCtx))).
+    { intros Ec. unfold Pr, parked, blocked; cbn. repeat split; try discriminate; auto. intros sg H; discriminate. }
+    assert (L2 : stored s (r_n r) \/ r_n r <= st_hsh s -> Pr s (with_pc r RLookup2)).
+    { intros H. unfold Pr, parked, blocked; cbn. repeat split; try discriminate; auto. intros sg H'; discriminate. }
+    assert (Same : Pr s r).
+    { unfold Pr, parked, blocked. rewrite Epc. exact (conj P1 (conj P1' (conj PD (conj P2 (conj P3 (conj P4 P5)))))). }
+    destruct ph.
+    + destruct (lookup s (r_n r)) eqn:El.
+      * unfold Pr, parked, blocked; cbn. split; [exact P1|]. split; [discriminate|].
+        split; [intros sg _; unfold stored; congruence|]. repeat split; discriminate.
+      * unfold Pr, parked, blocked; cbn. split; [exact P1|]. split.
+        -- destruct sig; [discriminate|]. intros _.
+           destruct (mem (r_n r) (st_notified s)) eqn:Em; [|reflexivity]. exfalso. apply (Hnot eq_refl). exact El.
+        -- split; [intros sg H; discriminate|]. repeat split; discriminate.
+    + apply L2. left. apply (PD sig). reflexivity.
+    + destruct b.
+      * destruct (r_cancel r) eqn:Ec; [apply C; reflexivity | exact Same].
+      * destruct sig; [apply L2, Hsig; reflexivity|].
+        destruct (r_cancel r) eqn:Ec; [apply C; reflexivity | exact Same].
+  - unfold Pr, lookup_res, parked, blocked; cbn. specialize (P2 eq_refl).
+    destruct (lookup s (r_n r)) eqn:El; repeat split; try discriminate; auto; try (intros sg H; discriminate).
     intros _. destruct P2 as [H|H]; [|exact H]. exfalso. apply H. exact El.
-  - unfold Pr. rewrite Epc. exact (conj P1 (conj P2 (conj P3 (conj P4 P5)))).
+  - unfold Pr, parked, blocked. rewrite Epc. exact (conj P1 (conj P1' (conj PD (conj P2 (conj P3 (conj P4 P5)))))).
 Qed.
 
 Lemma Pr_other s r r' : (other_rel r r' \/ r' = cancel_of r) -> Pr s r -> Pr s r'.
 Proof.
   intros [[->|[Hp ->]]| ->] P; auto.
-  - unfold Pr, sig_of; cbn. repeat split; discriminate.
-  - destruct P as (P1 & P2 & P3 & P4 & P5). unfold Pr, cancel_of; cbn.
-    split; [exact P1|]. split; [exact P2|]. split; [exact P3|]. split; [auto|exact P5].
+  - destruct P as (P1 & P1' & PD & P2 & P3 & P4 & P5). unfold Pr. rewrite n_sig_of, parked_sig_of.
+    assert (Hb : blocked (sig_of r) = false).
+    { unfold blocked, sig_of. destruct (r_pc r) as [| | |[| |] [|]| |]; reflexivity. }
+    rewrite Hb. split; [discriminate|]. split; [discriminate|].
+    unfold sig_of. unfold parked in Hp. destruct (r_pc r) as [| | |ph [|]| |] eqn:Epc; try discriminate. cbn.
+    split; [intros sig [= -> _]; apply (PD false); reflexivity|]. repeat split; discriminate.
+  - destruct P as (P1 & P1' & PD & P2 & P3 & P4 & P5). unfold Pr, cancel_of, parked, blocked in *; cbn.
+    split; [exact P1|]. split; [exact P1'|]. split; [exact PD|]. split; [exact P2|]. split; [exact P3|]. split; [auto|exact P5].
+Qed.
+
+Lemma notified_wstep s n : In n (st_notified (wstep s)) ->
+  In n (st_notified s) \/ (exists hs, st_w s = WNotify hs /\ In n (map fst hs)).
+Proof.
+  wcases s; cbn; auto. rewrite in_app_iff. intros [H|H]; [right; eauto|left; exact H].
 Qed.
 
 Lemma InvP_step s e : InvW s -> InvK s -> InvP s -> InvP (step s e).
 Proof.
-  intros IW IK IP. unfold InvP in *. rewrite Forall_forall in *.
-  intros r' Hin. apply In_nth_error in Hin as [j Ej].
-  assert (Hlen : (j < length (st_readers s))%nat).
-  { rewrite <- (step_length s e). apply nth_error_Some. congruence. }
-  destruct (nth_error (st_readers s) j) as [r|] eqn:E; [|apply nth_error_None in E; lia].
-  pose proof (IP r (nth_error_In _ _ E)) as P.
-  destruct (step_same_or_w s e) as [Hs| ->].
-  - apply (Pr_same s _ _ Hs).
-    destruct (own_step e j) eqn:Eo.
-    + destruct (step_own s e j r Eo E) as [b E']. rewrite E' in Ej. injection Ej as <-.
-      apply Pr_rnext; auto. intros Hpc. destruct IK as [_ K2]. apply (K2 j r E Hpc).
-    + destruct (step_other s e j r Eo E) as (r1 & E' & Hrel). rewrite E' in Ej. injection Ej as <-.
-      apply (Pr_other s r r1); auto. destruct Hrel as [H|[_ H]]; auto.
-  - cbn in Ej. rewrite wstep_readers_eq, nth_error_map, E in Ej. cbn in Ej. injection Ej as <-.
-    apply Pr_wstep; auto. intros Hpc. eapply parked_has_sub; eauto.
+  intros IW IK [IP IN]. split.
+  - rewrite Forall_forall in *.
+    intros r' Hin. apply In_nth_error in Hin as [j Ej].
+    assert (Hlen : (j < length (st_readers s))%nat).
+    { rewrite <- (step_length s e). apply nth_error_Some. congruence. }
+    destruct (nth_error (st_readers s) j) as [r|] eqn:E; [|apply nth_error_None in E; lia].
+    pose proof (IP r (nth_error_In _ _ E)) as P.
+    destruct (step_same_or_w s e) as [Hs| ->].
+    + apply (Pr_same s _ _ Hs).
+      destruct (own_step e j) eqn:Eo.
+      * destruct (step_own s e j r Eo E) as [b E']. rewrite E' in Ej. injection Ej as <-.
+        apply Pr_rnext; auto.
+        -- intros Hpc. destruct IK as [_ K2]. apply (K2 j r E Hpc).
+        -- intros Hm. apply stored_map, IN, mem_In, Hm.
+      * destruct (step_other s e j r Eo E) as (r1 & E' & Hrel). rewrite E' in Ej. injection Ej as <-.
+        apply (Pr_other s r r1); auto. destruct Hrel as [H|[_ H]]; auto.
+    + cbn in Ej. rewrite wstep_readers_eq, nth_error_map, E in Ej. cbn in Ej. injection Ej as <-.
+      apply Pr_wstep; auto. intros Hpc. eapply parked_has_sub; eauto.
+  - intros n Hn. destruct (step_same_or_w s e) as [(a & b & c & d & e' & f)| ->].
+    + rewrite c. rewrite f in Hn. auto.
+    + cbn in *. apply map_wstep. apply notified_wstep in Hn as [Hn|(hs & Ew & Hn)]; auto.
+      pose proof (w_pc s IW) as H2. rewrite Ew in H2. apply H2, Hn.
 Qed.
 
 (** * all invariants together *)
